@@ -169,6 +169,21 @@ def check_predicates(decl_idx, seeds, backend_note=''):
         x = rnd.choice(names)
         R = exp.export(ctx.let({x + '2': x}, ctx.let({x: x + '2'}, u)))
         decide(f'{x}->{x}2->{x}', R != U, 'let-rename', None, dict(defs={x: x + '2'}, back=True))
+        # ---- simultaneous renamings: swap of an identifier with its twin, in both dict orders, on a predicate
+        #      that depends on both (a sequential implementation maps both onto one identifier)
+        for x in rnd.sample(names, min(2, len(names))):
+            vt = gen_pred(rnd, decl, 1)
+            comb = 'and' if rnd.random() < 0.5 else 'xor'
+            w = ctx.apply(comb, u, ctx.let({x: x + '2'}, ctx.add_expr(sem.to_str(vt))))
+            Wt = exp.export(w)
+            bx, bx2 = link.bits_of(x, t[x]), link.bits_of(x + '2', t[x + '2'])
+            swapped = z3.substitute(Wt, *([(bits(a), bits(b)) for a, b in zip(bx, bx2)] +
+                                          [(bits(b), bits(a)) for a, b in zip(bx, bx2)]))
+            for order in ((x, x + '2'), (x + '2', x)):
+                defs = {order[0]: order[1], order[1]: order[0]}
+                R = exp.export(ctx.let(dict(defs), w))
+                decide(f'swap {order[0]}<->{order[1]} on a predicate over both', R != swapped, 'let-swap', None,
+                       dict(defs=defs, x=x, comb=comb, second_tree=vt))
         # ---- replace_with_bdd
         bools = [k for k in names if decl[k] == 'bool']
         if bools:
@@ -342,6 +357,12 @@ def check_predicates(decl_idx, seeds, backend_note=''):
     return out
 
 
+def tuple_tree(x):
+    if isinstance(x, (list, tuple)):
+        return tuple(tuple_tree(y) for y in x)
+    return x
+
+
 def replay(payload):
     """Evaluate the operation on the real code at one full assignment sigma with
     `Context.let` on complete assignments, against `sem.eval_py` of the predicate."""
@@ -380,6 +401,20 @@ def replay(payload):
             want = ev(dict(sigma, **{k: sigma[v] for k, v in c['defs'].items()}))
         got = truth(r, sigma)
         return got != want, f'let({c["defs"]}) at {sigma}: {got}, set semantics: {want}'
+    if op == 'let-swap':
+        x, x2 = c['x'], c['x'] + '2'
+        vt = tuple_tree(c['second_tree'])
+        w = ctx.apply(c['comb'], u, ctx.let({x: x2}, ctx.add_expr(sem.to_str(vt))))
+        r = ctx.let(dict(c['defs']), w)
+
+        def wval(sg):
+            a = ev(sg)
+            b = bool(sem.eval_py(vt, ctx.vars, dict(sg, **{x: sg[x2]})))
+            return (a and b) if c['comb'] == 'and' else (a != b)
+        sw = dict(sigma)
+        sw[x], sw[x2] = sigma[x2], sigma[x]
+        got, want = truth(r, sigma), wval(sw)
+        return got != want, f'let({c["defs"]}) at {sigma}: {got}, simultaneous renaming gives {want}'
     if op in ('exist', 'forall'):
         qs = c['qvars']
         r = ctx.exist(set(qs), u) if op == 'exist' else ctx.forall(set(qs), u)
